@@ -12,7 +12,8 @@ def run(ctx):
                 "after other hops / in a second field line / with comment) x request kind (GET, HTTP/1.0, POST, CONNECT, "
                 "inside MITM) x position x direct/upstream; the instance tag is learnt from a priming request; refused "
                 "chains must give 400 and contact nobody, others must arrive with the client's elements followed by exactly "
-                "one new element of the client's protocol version. Real loops of one and two instances are driven too. "
+                "one new element of the client's protocol version. Real loops of one and two instances are driven too, and 16 "
+                "concurrent clients with chains of all classes (unique, of different lengths) share one instance. "
                 "Non-trivial = chain carrying any Via element.")
     ctx.mc("Pipeline.tla", "MC_Pipeline.cfg")
     binp = ctx.build()
@@ -24,6 +25,9 @@ def run(ctx):
 def loops(ctx, binp):
     out = ctx.run_vh(binp, ["c18-loops"])
     out, crashed = ctx.nocrash(out, "C18:crash")
+    out2 = ctx.run_vh(binp, ["c18-conc"])
+    out2, crashed2 = ctx.nocrash(out2, "C18:crash:concurrent")
+    out = out + out2
     for r in out:
         ctx.evaluations += 1
         ctx.nontrivial.add("loop:" + r["name"])
